@@ -123,6 +123,7 @@ type Sim struct {
 	coRelease   string // "" | "sched" | "inner"
 	waitFn      func(p *pend) pendResult
 	Trace       io.Writer
+	StallDur    time.Duration
 }
 
 func NewSim(schedule []uint32, policy string) *Sim {
@@ -494,13 +495,11 @@ func (s *Sim) serveHTTP(p *pend, f *FaultSpec) {
 		rec.Note = fmt.Sprintf("applied with status %d, response lost", r.Status)
 		finish(pendResult{err: &simErr{"unexpected EOF (simulated: response lost)"}}, 0, true)
 	case FStall:
-		// never answered: stays parked until the client's own timeout fires
-		s.mu.Lock()
-		p.served = false
-		p.stalled = true
-		s.mu.Unlock()
-		p.proc.Served-- // not counted as served
-		s.Event("%d STALL %s %s %s", s.nextSeq(), p.proc.ID, p.verb, p.path)
+		// never answered: the caller waits until (just before) its own client time-out and then
+		// gives up. The error is produced here rather than by net/http's timer, whose wording
+		// depends on which of its goroutines wins.
+		rec.Note = "stalled until the client gave up"
+		finish(pendResult{err: &simErr{"context deadline exceeded (simulated: request stalled until the client time-out)"}, sleep: s.StallDur}, 0, false)
 	case FCrashBefore:
 		s.mu.Lock()
 		p.proc.Crashed = true
